@@ -272,6 +272,9 @@ pub fn derive(input: &Input) -> TokenStream {
 
             #[inline]
             fn index(self, soa: &'a #vec_name) -> Self::RefOutput {
+                if *self.end() == usize::MAX {
+                    panic!("attempted to index slice up to maximum usize");
+                }
                 ::soa_derive::SoAIndex::index(*self.start()..self.end() + 1, soa)
             }
         }
@@ -295,6 +298,9 @@ pub fn derive(input: &Input) -> TokenStream {
 
             #[inline]
             fn index_mut(self, soa: &'a mut #vec_name) -> Self::MutOutput {
+                if *self.end() == usize::MAX {
+                    panic!("attempted to index slice up to maximum usize");
+                }
                 ::soa_derive::SoAIndexMut::index_mut(*self.start()..self.end() + 1, soa)
             }
         }
@@ -592,6 +598,9 @@ pub fn derive(input: &Input) -> TokenStream {
 
             #[inline]
             fn index(self, slice: #slice_name<'a>) -> Self::RefOutput {
+                if *self.end() == usize::MAX {
+                    panic!("attempted to index slice up to maximum usize");
+                }
                 ::soa_derive::SoAIndex::index(*self.start()..self.end() + 1, slice)
             }
         }
@@ -615,6 +624,9 @@ pub fn derive(input: &Input) -> TokenStream {
 
             #[inline]
             fn index_mut(self, slice: #slice_mut_name<'a>) -> Self::MutOutput {
+                if *self.end() == usize::MAX {
+                    panic!("attempted to index slice up to maximum usize");
+                }
                 ::soa_derive::SoAIndexMut::index_mut(*self.start()..self.end() + 1, slice)
             }
         }
